@@ -14,10 +14,13 @@ from sa.ctx import Ctx, short, stmt_key, ENGINE_MODULES
 from sa.cfg import NORMAL, describe_path
 from sa.report import Report
 from sa.effects import Effects
-from sa.util import cfg_root, node_has_call, node_stores_attr, has_fact, exists_in, fact_in, local_assigned_from
+from sa.util import disjunctions, cfg_root, node_has_call, node_stores_attr, has_fact, exists_in, fact_in, local_assigned_from
 from sa import pat
 
 DESTRUCTIVE = {"delete", "upload", "rmtree"}
+
+
+EXPECTED = {"delete_synced": "delete", "handle_rename": "delete", "_smart_unsync_ent": "delete", "upload_synced": "upload", "resolve_conflict": "upload"}
 
 
 class C02:
@@ -36,15 +39,16 @@ class C02:
                 continue
             for c in self.eff.provider_mutations(f):
                 if c.func.attr in DESTRUCTIVE:
-                    inventory.setdefault(f.name, []).append((f, c))
-        expected = {"delete_synced": "delete", "handle_rename": "delete", "_smart_unsync_ent": "delete", "upload_synced": "upload", "resolve_conflict": "upload"}
+                    # an extracted single-caller helper is read as part of the method it was extracted from
+                    inventory.setdefault(f.name if f.name in EXPECTED else ctx.owner(f).name, []).append((f, c))
+        expected = EXPECTED
         for fname, sites in inventory.items():
             for f, c in sites:
                 key = "%s|%s" % (short(f.qname), ast.unparse(c)[:60])
                 if expected.get(fname) != c.func.attr:
                     rep.violation("C02.R1", key, ctx.line(f, c), "new destructive provider call `%s` in %s outside the guarded inventory" % (ast.unparse(c)[:70], short(f.qname)), func=f.qname)
                     continue
-                facts = ctx.facts_at(f, c)
+                facts = ctx.facts_inlined(f, c)
                 if fname == "delete_synced":
                     sync, changed, synced = f.params()[1:4]
                     ok = has_fact(facts, "%s[%s].oid" % (sync, synced), True) and pat.match("self.providers[%s].delete(%s[%s].oid)" % (synced, sync, synced), c) is not None
@@ -61,7 +65,7 @@ class C02:
                     ok = True
                     why = "guarded at its caller (R2)"
                 else:
-                    keep = local_assigned_from(ctx, f, "self.__safe_call_resolver($$$)", 1)
+                    keep = local_assigned_from(ctx, ctx.owner(f), "self.__safe_call_resolver($$$)", 1)
                     ok = keep is not None and fact_in(facts, keep, False) and has_fact(facts, "$A is $B", False)
                     why = "resolver upload only over the losing handle and only when the loser is not kept"
                 rep.check("C02.R1", key, ctx.line(f, c), ok, why, "destructive call `%s` lost its guard (%s; facts: %s)" % (ast.unparse(c)[:60], why, sorted(facts)), func=f.qname)
@@ -102,7 +106,8 @@ class C02:
         for c in calls:
             facts = ctx.facts_at(f, c)
             trashed = exists_in(facts, "%s[%s].exists" % (sync, changed), {"TRASHED"}, pol=True)
-            pend = any((not pol) and "is_creation(%s)" % synced in txt and "changed" in txt for (txt, pol) in facts)
+            # not (peer is a pending creation of a file): one of `not is_creation(synced)`, `otype != FILE`, `not changed` holds
+            pend = any("not %s.is_creation(%s)" % (sync, synced) in dj and "not %s[%s].changed" % (sync, synced) in dj for dj in disjunctions(facts))
             rep.check("C02.R3", "embrace_change|delete", ctx.line(f, c), trashed and pend, "peer delete only for a TRASHED side without a pending peer creation",
                       "the peer is deleted although %s (facts %s)" % ("the changed side is not known to be trashed" if not trashed else "the other side may hold a pending creation", sorted(facts)))
         d = ctx.prog.func("SyncManager.delete_synced")
@@ -224,3 +229,7 @@ def run(ctx: Ctx, rep: Report, tier: str):
                   "the adopted file's id / current hash are not recorded (stores: %s)" % sorted(attrs))
         rep.check("C02.R7", "create_synced|adopt|stays-unsynced", ctx.line(cs_, h), not ({"sync_hash", "sync_path"} & attrs), "last-synced markers untouched",
                   "the adopted foreign file is booked as already synced (%s stored): its content is overwritten by the next upload without a conflict" % sorted({"sync_hash", "sync_path"} & attrs))
+    from rules.common import alias as _alias
+    from rules.C07 import C07 as _C07
+    _alias(rep, ["C07.R4"], "C02.R8", "an existing peer file is adopted as 'already synced' only if its hash equals the hash of the bytes being created (C07.R4): "
+           "otherwise one of two different contents would be booked as synced and never reconciled", 3, lambda: _C07(ctx, rep).r4())
